@@ -34,6 +34,12 @@ partial def loop (inp : IO.FS.Stream) (out : IO.FS.Stream) (zone : IO.Ref Starca
   -- time zone, GOMAXPROCS); the model has no process environment: same answer whatever they say
   let toks := toks.dropWhile (fun t => t.startsWith "@")
   let resp ← match toks with
+    -- calls the properties say nothing about (ill-formed arguments, other exported functions, a second
+    -- instance of a type, a zone object at a reused address): the real code makes them and answers "ok";
+    -- a function of the model has no state they could change
+    | _ :: "abuse" :: _ => pure "ok"
+    | _ :: "other-table" :: _ => pure "ok"
+    | _ :: "reuse" :: _ => pure "ok"
     | ["zone", "set", _name, o0, tr] =>
       match o0.toInt?, parseTrans tr with
       | some o, some t => do zone.set ⟨o, t⟩; pure "ok"
